@@ -301,10 +301,21 @@ fn arr<const K: usize>(raw: &[u8]) -> Option<[u8; K]> {
 pub fn hdr_obs(what: u32, fld: u32, raw: &[u8], v: u32) -> Obs {
     let r = catch_unwind(AssertUnwindSafe(|| -> Obs {
         match what {
-            0 | 1 => {
-                let set = what == 1;
+            0 | 1 | 12 | 13 => {
+                let set = what == 1 || what == 13;
+                // 12 / 13: the same accessors through a view over a Vec of any length (the views are generic in their storage)
+                let anylen = what >= 12;
                 macro_rules! acc {
                     ($ty:ident, $k:expr, $get:ident, $set:ident, $vt:ty) => {{
+                        if anylen {
+                            let mut h = $ty(raw.to_vec());
+                            if set {
+                                h.$set(v as $vt);
+                                Obs::Bytes(h.0)
+                            } else {
+                                Obs::Val(h.$get() as u32)
+                            }
+                        } else {
                         match arr::<$k>(raw) {
                             None => Obs::Bad,
                             Some(a) => {
@@ -316,6 +327,7 @@ pub fn hdr_obs(what: u32, fld: u32, raw: &[u8], v: u32) -> Obs {
                                     Obs::Val(h.$get() as u32)
                                 }
                             }
+                        }
                         }
                     }};
                 }
@@ -398,6 +410,22 @@ pub fn hdr_obs(what: u32, fld: u32, raw: &[u8], v: u32) -> Obs {
                 } else {
                     Obs::Bytes(c.get_response().generate_smbus_header(v as u8).0.to_vec())
                 }
+            }
+            14 => {
+                // the three request encoders that end in unimplemented!(): the panic is the observation, with the buffer
+                // as the packet writer left it
+                let mts: [u8; 0] = [];
+                let vids: [VendorIDFormat; 0] = [];
+                let c = MCTPSMBusContext::new((v >> 8) as u8, &mts, &vids);
+                let id = v & 0xFF;
+                if id != 18 && id != 19 && id != 21 { return Obs::Bad; }
+                let mut buf = raw.to_vec();
+                let rr = catch_unwind(AssertUnwindSafe(|| match id {
+                    18 => c.get_request().request_tx_rate_limit(fld as u8, &mut buf),
+                    19 => c.get_request().update_rate_limmit(fld as u8, &mut buf),
+                    _ => c.get_request().query_supported_interfaces(fld as u8, &mut buf),
+                }));
+                match rr { Err(_) => Obs::Panic(buf), Ok(_) => Obs::Bad }
             }
             _ => Obs::Bad,
         }
